@@ -413,6 +413,25 @@ def w_dsa(spec, ctx, kf, der):
                 break
             key = DSA.generate(p.bit_length(), domain=(p, q, g))
         cell = Cell(ctx, kf, der, DSA, "DSA[%d,%d]" % (p.bit_length(), q.bit_length()))
+        # keys whose public value has a chosen MOST SIGNIFICANT BYTE (sign bit / leading zero handling of every integer
+        # encoding: DER INTEGER, SSH mpint): 0x80 exactly, its neighbours, 0xFF, 0x01, and a y one byte shorter than p
+        L8 = (p.bit_length() + 7) // 8
+        want_top = {0x80: None, 0x7F: None, 0x81: None, 0xFF: None, 0x01: None, 0x00: None}
+        for x_ in range(2, 4000):
+            yb = pow(g, x_, p).to_bytes(L8, "big")
+            if yb[0] in want_top and want_top[yb[0]] is None:
+                want_top[yb[0]] = x_
+                if all(v is not None for v in want_top.values()):
+                    break
+        for top, x_ in sorted(want_top.items()):
+            if x_ is None or (round_ and rng.random() < 0.6):
+                continue
+            ks = DSA.construct((pow(g, x_, p), g, p, q, x_))
+            ctx.count("dsa_keys_with_chosen_top_byte")
+            for kk_, kw_, ig_ in ((ks.public_key(), {"format": "OpenSSH"}, ()), (ks.public_key(), {"format": "DER"}, ()),
+                                  (ks.public_key(), {"format": "PEM"}, ()), (ks, {"format": "DER"}, ()), (ks, {"format": "PEM", "pkcs8": False}, ()),
+                                  (ks, {"format": "OpenSSH"}, ("x", "private"))):
+                cell.judge(kk_, kw_, ignore=ig_)
         pub = key.public_key()
         for fmt in ("PEM", "DER", "OpenSSH"):
             cell.judge(pub, {"format": fmt})
@@ -645,6 +664,15 @@ def w_equality(spec, ctx, kf, der):
         try:
             r1b = RSA.construct((int(r1.n), int(r1.e), int(r1.d) + lam, int(r1.p), int(r1.q)))
             eq(r1, r1b, int(r1b.d) == int(r1.d), "rsa:same-modulus-other-d")
+        except ValueError:
+            pass
+        try:
+            # the same n, d, p, q with another (equally consistent) public exponent: e + lcm(p-1, q-1)
+            r1c = RSA.construct((int(r1.n), int(r1.e) + lam, int(r1.d), int(r1.p), int(r1.q)))
+            eq(r1, r1c, int(r1c.e) == int(r1.e), "rsa:same-modulus-other-e")
+            eq(r1.public_key(), r1c.public_key(), int(r1c.e) == int(r1.e), "rsa:same-modulus-other-e-public")
+            eq(RSA.import_key(r1.export_key("DER")), RSA.import_key(r1c.export_key("DER")), int(r1c.e) == int(r1.e), "rsa:same-modulus-other-e-reimported")
+            ctx.count("equality_other_e_pairs")
         except ValueError:
             pass
         eq(d1, DSA.import_key(d1.export_key()), True, "dsa:reimport")
